@@ -46,7 +46,7 @@ func NewContext(name, source string, r Ranger) *Context {
 // The body is underlined.
 func (c *Context) Show(indent string) string {
 	rangeDesc := c.describeRange()
-	if c.StartLine == c.EndLine {
+	if !strings.Contains(c.Body, "\n") {
 		// Body has only one line, show it on the same line:
 		//
 		return fmt.Sprintf("%s: %s",
@@ -121,12 +121,15 @@ func getContextDetails(source string, r Ranging) contextDetails {
 
 	startLine := strings.Count(before, "\n") + 1
 	startCol := 1 + len(head)
-	endLine := startLine + strings.Count(body, "\n")
-	var endCol int
-	if startLine == endLine {
-		endCol = startCol + len(body) - 1
-	} else {
-		endCol = len(lastLine(body))
+	// The end position is that of the last byte of the body. A zero-width body
+	// has no last byte and ends one column before the start. Note that the
+	// last byte can itself be a newline (when the range ends in two newlines);
+	// a newline belongs to the line it terminates.
+	endLine, endCol := startLine, startCol-1
+	if body != "" {
+		beforeLast := source[:r.From+len(body)-1]
+		endLine = strings.Count(beforeLast, "\n") + 1
+		endCol = 1 + len(lastLine(beforeLast))
 	}
 
 	return contextDetails{startLine, startCol, endLine, endCol, body, head, tail}
